@@ -52,6 +52,8 @@ THEOREMS = [
     "C02_two_composites_refine",
     "C02_roundtrip_keeps_firing_order",
     "C02_roundtrip_transposed_witness",
+    "C02_roundtrip_keeps_round",
+    "C02_roundtrip_forgets_round_witness",
     "C02_pull_keeps_wiring",
     "C02_pull_partial_restore_witness",
     "C02_replace_keeps_order",
@@ -261,6 +263,8 @@ def _trig_do(N, ev, ems, ra, rb):
         N.FAIL.setdefault(R_ACC, set()).add(N.ATTEMPTS.get(R_ACC, 0) + 1)
     elif kind == "heal":
         ra.failed = False
+    elif kind == "trip":
+        pass  # done by the caller (everything is re-bound); the observation line shows the copy's state
     else:
         raise ValueError(kind)
 
@@ -281,6 +285,8 @@ def _trig_model_line(ev):
         return f"emit {_chan(ev[1], ev[2])}"
     if kind == "run":
         return f"emit {_chan(ev[1], 1 if ev[2] else 0)}"
+    if kind == "trip":
+        return "ttrip"
     if kind in ("unready", "ready", "failnext", "heal"):
         return None  # only changes what the owner's callback does; the (pinned) trigger does not care
     raise ValueError(kind)
@@ -305,20 +311,20 @@ def _run_trig(case):
     orig_run = Node.run
 
     def counting_run(self, *a, **k):
-        if self is ra:
+        if self.label == "recvacc":
             invoked.append(R_ACC)
-        elif self is rb:
+        elif self.label == "recvany":
             invoked.append(R_ANY)
         return orig_run(self, *a, **k)
 
     Node.run = counting_run
     try:
-        return _run_trig_hists(case, N, ems, ra, rb, acc, anyc, chan_of, lab_of, obs, fires, stats, invoked)
+        return _run_trig_hists(case, N, ems, ra, rb, acc, anyc, chan_of, lab_of, obs, fires, stats, invoked, wf)
     finally:
         Node.run = orig_run
 
 
-def _run_trig_hists(case, N, ems, ra, rb, acc, anyc, chan_of, lab_of, obs, fires, stats, invoked):
+def _run_trig_hists(case, N, ems, ra, rb, acc, anyc, chan_of, lab_of, obs, fires, stats, invoked, wf=None):
     from pyiron_workflow.mixin.run import ReadinessError
 
     both = 0
@@ -340,6 +346,19 @@ def _run_trig_hists(case, N, ems, ra, rb, acc, anyc, chan_of, lab_of, obs, fires
                 hf.append((0, 0))
                 stats[f"ev:{ev[0]}"] = stats.get(f"ev:{ev[0]}", 0) + 1
                 continue
+            if ev[0] == "trip":
+                # the workflow that owns emitters and receivers is pickled and loaded BETWEEN two events of the history;
+                # the history goes on with the copy (everything re-bound by label)
+                import pickle
+
+                wf = pickle.loads(pickle.dumps(wf))
+                ems = [wf.children[f"L{l}"] for l in case["labels"]]
+                ra, rb = wf.children["recvacc"], wf.children["recvany"]
+                acc, anyc = ra.signals.input.accumulate_and_run, rb.signals.input.run
+                chan_of.clear()
+                for e, n in enumerate(ems):
+                    for c in (0, 1):
+                        chan_of[id(n.signals.output[CH[c]])] = _chan(e, c)
             mark = len(invoked)
             err = None
             try:
@@ -1950,13 +1969,16 @@ VIA_ACC = ["t.connect", "s.connect", "s>>t", "t<<s", "node<<s"]
 VIA_ANY = ["t.connect", "s.connect", "s>>t", "s>>node"]
 
 
-def _rand_hist(rng, n_em, length, rich=True, raising=False):
+def _rand_hist(rng, n_em, length, rich=True, raising=False, trips=False):
     """`raising`: only the all-of trigger is used and its owner is made to refuse (input without data) or to fail
     (function raises; the owner stays failed until healed) now and then — its run() is invoked all the same"""
     hist = []
     for _ in range(length):
         r = rng.random()
         t = "acc" if raising or rng.random() < 0.7 else "any"
+        if trips and rng.random() < 0.1:
+            hist.append(["trip"])  # pickle round trip of the owning workflow between two events
+            continue
         if raising and rng.random() < 0.2:
             hist.append([rng.choice(["unready", "ready", "failnext", "heal", "ready", "heal"]), "acc"])
             continue
@@ -2442,7 +2464,8 @@ def gen_cases(rng, tier):
         else:
             labels = [rng.randrange(2) for _ in range(n_em)]  # parentless nodes may share a label
         raising = rng.random() < 0.3
-        hists = [_rand_hist(rng, n_em, rng.randint(3, 14 if tier == "quick" else 40), raising=raising) for _ in range(per)]
+        hists = [_rand_hist(rng, n_em, rng.randint(3, 14 if tier == "quick" else 40), raising=raising,
+                            trips=parent and rng.random() < 0.6) for _ in range(per)]
         yield {"kind": "trig", "labels": labels, "parent": parent, "hists": hists}
     for _ in range(n_trig // 2):
         n_em = rng.randint(2, 3)
@@ -2467,6 +2490,11 @@ def gen_cases(rng, tier):
 
 
 def corpus():
+    # seeded C02-14: join << (a, b) inside a workflow; a completes; pickle round trip; b completes in the copy -> the join
+    # runs; the next round again needs both
+    yield {"kind": "trig", "labels": [0, 1], "parent": True, "hists": [
+        [["connect", "acc", 0, 0, "node<<node"], ["connect", "acc", 1, 0, "node<<node"], ["run", 0, False], ["trip"],
+         ["run", 1, False], ["run", 0, False], ["trip"], ["trip"], ["run", 1, False], ["arrive", "acc", 1, 0], ["trip"], ["emit", 0, 0]]]}
     # seeded C02-12: slow (0, on the executor) >> after_slow (3); tick (1) >> work (2) >> after_work (4); slow lands while
     # work's function is running (2nd local call): slow, tick, work, after_slow, after_work — also with an all-of join behind
     ex = {"kind": "flow", "nodes": [_node("term", ["d", "d", "d"], cache=False) for _ in range(6)], "data": [],
